@@ -61,8 +61,8 @@ def ghe_case(draw, kind=None, max_n=400, months=None, n_heights=None, families=N
         "hmax": hi,
         "loads": draw(gl.load_spec(families=families)),
         "months": draw(st.integers(1, 360)) if months is None else draw(months),
-        "max_eft": draw(st.floats(25.0, 40.0)),
-        "min_eft": draw(st.floats(-5.0, 10.0)),
+        "max_eft": draw(st.one_of(st.floats(25.0, 40.0), st.floats(25.0, 40.0), st.floats(25.0, 40.0), st.sampled_from([30.0, 35.0]))),
+        "min_eft": draw(st.one_of(st.floats(-5.0, 10.0), st.floats(-5.0, 10.0), st.floats(-5.0, 10.0), st.sampled_from([0.0, 0.0, 5.0]))),
         "system_flow": draw(st.booleans()),
         # used by sizing checks: loads are rescaled so that the excess vanishes at hmin + size_frac (hmax - hmin), times size_u
         "size_frac": draw(st.floats(0.05, 0.95)),
